@@ -22,8 +22,13 @@ mod p11;
 mod p12;
 mod rsim;
 mod p13;
+mod p14;
 
 use driver::*;
+
+pub fn fw_hash(s: &str) -> u64 {
+    rng::fnv1a(s.as_bytes())
+}
 use fw::*;
 use std::path::PathBuf;
 
@@ -68,6 +73,10 @@ macro_rules! families {
             }
             "C13" => {
                 type $f = p13::C13;
+                $body
+            }
+            "C14" => {
+                type $f = p14::C14;
                 $body
             }
             other => {
